@@ -200,3 +200,28 @@ End S.
 Theorem checked_trace_from_fresh n : 2 <= NN n -> NoDup (output n) ->
   forall tr, pre_trace_b n tr (init_state n) = true -> InvC n (run n tr (init_state n)).
 Proof. intros HN Hout tr H. apply (trace_from_fresh_InvC n HN Hout), (pre_trace_b_sound n Hout), H. Qed.
+
+(* the second sentence of C04, for histories certified by the boolean precondition check: two such
+   histories that end with the same tree (up to the order of children / dict entries) and the same
+   sliced / projected indices (in any order) report the same figures and totals *)
+Theorem roundtrip_checked n : 2 <= NN n -> NoDup (output n) ->
+  forall tr1 tr2, pre_trace_b n tr1 (init_state n) = true -> pre_trace_b n tr2 (init_state n) = true ->
+  let s1 := run n tr1 (init_state n) in let s2 := run n tr2 (init_state n) in
+  ch_equiv (children s1) (children s2) -> Permutation (sliced s1) (sliced s2) ->
+  (forall nd i1 i2, nget nd (info s1) = Some i1 -> nget nd (info s2) = Some i2 ->
+     (forall z1 z2, i_size i1 = Some z1 -> i_size i2 = Some z2 -> z1 = z2) /\
+     (forall z1 z2, i_flops i1 = Some z1 -> i_flops i2 = Some z2 -> z1 = z2) /\
+     (forall l1 l2, i_legs i1 = Some l1 -> i_legs i2 = Some l2 ->
+        size_of (szd n) (lkeys l1) = size_of (szd n) (lkeys l2) /\ forall j, In j (lkeys l1) <-> In j (lkeys l2))) /\
+  ((forall p, In p (nkeys (children s1)) -> nget p (info s1) <> None /\ nget p (info s2) <> None) ->
+   (trk_flops s1 = true -> trk_flops s2 = true -> flops_ s1 = flops_ s2) /\
+   (trk_write s1 = true -> trk_write s2 = true -> write_ s1 = write_ s2) /\
+   mult s1 = mult s2).
+Proof.
+  intros HN Hout tr1 tr2 H1 H2 s1 s2 Heq HP.
+  pose proof (checked_trace_from_fresh n HN Hout tr1 H1) as I1. pose proof (checked_trace_from_fresh n HN Hout tr2 H2) as I2.
+  fold s1 in I1. fold s2 in I2. split.
+  - apply (figures_determined_eq n HN Hout s1 s2 I1 I2 Heq). intros j. unfold removed.
+    split; apply Permutation_in; [|apply Permutation_sym]; apply Permutation_map, HP.
+  - intros Hpres. apply (totals_determined_eq n HN Hout s1 s2 I1 I2 Heq HP Hpres).
+Qed.
